@@ -77,6 +77,7 @@ func (s *scLife) Configure(w *World) {
 			}
 		}
 		c.W.Commit = 3
+		c.W.Close = 1
 		if !strings.HasPrefix(c.ConsumerMode, "deferred") && t.Draw(2, nil) == 0 {
 			c.YieldSites = map[string]bool{"consumer.trackoffset": true}
 		}
